@@ -128,6 +128,8 @@ func muxScenario(tr *Tracer, rng *rand.Rand, nchan, msgs, replies, procs int, un
 	}
 	tr.Emit(Ev{"ev": "NewChan", "g": 0, "ok": true, "id": 0, "err": ""})
 	var wg sync.WaitGroup
+	var closedMu sync.Mutex
+	var closedIDs []int
 	start := make(chan struct{})
 	worker := func(g int, ch *tds.Channel, id int, grng *rand.Rand) {
 		for m := 0; m < msgs; m++ {
@@ -198,6 +200,9 @@ func muxScenario(tr *Tracer, rng *rand.Rand, nchan, msgs, replies, procs int, un
 				select {
 				case <-done:
 					tr.Emit(Ev{"ev": "Closed", "chan": id})
+					closedMu.Lock()
+					closedIDs = append(closedIDs, id)
+					closedMu.Unlock()
 				case <-time.After(4 * time.Second):
 					tr.Emit(Ev{"ev": "CloseHung", "chan": id})
 				}
@@ -218,6 +223,15 @@ func muxScenario(tr *Tracer, rng *rand.Rand, nchan, msgs, replies, procs int, un
 		c := 500 + i
 		tr.Emit(Ev{"ev": "PeerSendUnknown", "chan": c})
 		mc.Feed(mkPacket(4, 1, c, 0, encRetStat(1).Bytes))
+	}
+	// a channel that was closed does not exist any more either
+	for i, c := range closedIDs {
+		if i >= 3 {
+			break
+		}
+		tr.Emit(Ev{"ev": "PeerSendUnknown", "chan": c})
+		mc.Feed(mkPacket(4, 1, c, 0, encRetStat(1).Bytes))
+		unknown++
 	}
 	errs := 0
 	for i := 0; i < unknown+2; i++ {
